@@ -78,31 +78,56 @@ func oracle(p *progSpec, o *obsT, res *okT, er *errT) []hk.Failure {
 		return fs
 	}
 	mustEntry := p.Entry == "mustget" || p.Entry == "mustpost"
+	hookRan := count(o.Log, -1, "onerror", 0) > 0
+	hookPanics := hookRan && p.HookMode == "panic"
 	// C1 / C2
 	if !o.Panic && o.RespNil {
 		fail("resp-nil", "the call returned a nil *Response", nil, "non-nil")
 		return fs
 	}
-	if o.Panic && !mustEntry {
+	if o.Panic && !mustEntry && !hookPanics {
 		fail("panic", "a non-Must entry point panicked", o.RetErr, nil)
+	}
+	if hookPanics && (!o.Panic || o.RetErr != p.HookTag) {
+		fail("hook-panic", "a panic raised by the error hook did not reach the caller", o.RetErr, p.HookTag)
 	}
 	if p.verb() && !o.Panic && !o.SameErr {
 		fail("err-neq-resp-err", "returned error is not the response's recorded Err", fmt.Sprintf("ret=%d resp.Err=%d", o.RetErr, o.RespErr), "identical")
 	}
-	if o.Panic && p.OnError && !o.SameErr {
+	if o.Panic && p.OnError && !hookPanics && !o.SameErr {
 		fail("err-neq-resp-err", "panic value is not the Err of the response the error hook received", nil, nil)
-	}
-	if !o.HookOK {
-		fail("onerror-args", "error hook did not receive the returned response and its error", nil, nil)
 	}
 	if mustEntry && !o.Panic && o.RetErr != 0 {
 		fail("must-no-panic", "Must* returned although the call ended in error", o.RetErr, "panic")
 	}
+	// the error the call ended with BEFORE the hook had a chance to rewrite it
 	finalErr := o.RespErr
 	if o.Panic {
 		finalErr = o.RetErr
 	}
-
+	if hookRan {
+		finalErr = o.HookErr
+		if finalErr == 0 {
+			fail("onerror-args", "the error hook ran without an error", nil, nil)
+		}
+		// what the hook does to resp.Err is what the caller gets
+		if !hookPanics {
+			after := o.RespErr
+			if o.Panic {
+				after = o.RetErr
+			}
+			want := o.HookErr
+			switch p.HookMode {
+			case "set":
+				want = p.HookTag
+			case "clear":
+				want = 0
+			}
+			if after != want {
+				fail("hook-rewrite", "the error returned after the hook ran is not resp.Err as the hook left it", after, want)
+			}
+		}
+	}
 	// the log is in attempt order and the error hook, if it ran, ran last
 	for i := 1; i < len(o.Log); i++ {
 		if o.Log[i].Attempt < o.Log[i-1].Attempt || o.Log[i-1].Kind == "onerror" {
@@ -201,6 +226,38 @@ func oracle(p *progSpec, o *obsT, res *okT, er *errT) []hk.Failure {
 	wantHook := 0
 	if p.verb() && p.OnError && finalErr != 0 {
 		wantHook = 1
+	}
+	// retry conditions: last registered first, until one says yes; hooks: all, in reverse order
+	for a := 0; a <= la; a++ {
+		var cs, hs []int
+		for _, e := range o.Log {
+			if e.Attempt == a && e.Kind == "cond" {
+				cs = append(cs, e.I)
+			}
+			if e.Attempt == a && e.Kind == "hook" {
+				hs = append(hs, e.I)
+			}
+		}
+		for k, i := range cs {
+			if i != p.NConds-1-k || (k > 0 && p.Attempts[a].Conds[cs[k-1]]) {
+				fail("retry-cond-order", "retry conditions not consulted from the last registered to the first / consulted after one said yes", o.Log, nil)
+				break
+			}
+		}
+		if len(hs) > 0 {
+			ok := len(hs) == p.NHooks
+			for k, i := range hs {
+				if i != p.NHooks-1-k {
+					ok = false
+				}
+			}
+			if !ok {
+				fail("retry-hook-order", "retry hooks not all run in reverse registration order", o.Log, nil)
+			}
+		}
+		if a < la && ((o.CtxCutAt >= 0 && o.CtxCutAt <= a) || p.Attempts[a].SleepCancel && o.SleepCut) {
+			fail("ctx-retried", "an attempt was made after the request's context had ended", o.Log, nil)
+		}
 	}
 	if n := count(o.Log, -1, "onerror", 0); n != wantHook {
 		fail("onerror-count", "error hook multiplicity", n, wantHook)
@@ -367,7 +424,9 @@ func oracle(p *progSpec, o *obsT, res *okT, er *errT) []hk.Failure {
 				}
 			}
 		}
-		if has(o.Log, la, "send", 0) {
+		if at.Ctx == "transport" && has(o.Log, la, "send", 0) {
+			must = append(must, eCanceled)
+		} else if has(o.Log, la, "send", 0) {
 			// a client-level digest middleware runs before the built-in binding (e430ccb): when it
 			// re-sends, the 401 itself is never unmarshalled
 			respStage(at.T, !(resent && dlevel == "cli"))
@@ -408,6 +467,12 @@ func oracle(p *progSpec, o *obsT, res *okT, er *errT) []hk.Failure {
 				may = append(may, w.Set, w.RetErr)
 			}
 		}
+	}
+	if o.SleepCut { // do() gives up with the context's error, whatever the attempt itself ended with
+		if finalErr != eCanceled {
+			fail("sleep-cancel", "the context ended during the wait between attempts but the call does not report it", finalErr, eCanceled)
+		}
+		must, may = []int{eCanceled}, nil
 	}
 	if len(must) > 0 && !catcher && finalErr == 0 {
 		fail("stage-error-swallowed", "a stage that ran raised an error but the call reports none", 0, must)
